@@ -143,7 +143,41 @@ def scenario_loop_and_index_rules(ctx: Ctx):
     ctx.ob("R16.8", f"no scenario index is tested for truthiness in {n_fn} functions", None, True, "indices are compared with None", nontrivial=False)
 
 
+def literal_scenario_in_inheritance_rule(ctx: Ctx, rid: str):
+    """Attribute inheritance consults the parent for the scenario it is filling in: no provided() / inherited() /
+    _get_scenario_attribute() / _scenarioAttributes[...] access in PropertyTreeNode.inheritAttributes carries a literal scenario
+    index (a quick reject on scenario 0 hides an override given for another scenario only)."""
+    fn = ctx.repo.func("PropertyTreeNode.inheritAttributes")
+    n = 0
+    bad = []
+    for x in own_nodes(fn):
+        idx = None
+        if isinstance(x, ast.Call) and isinstance(x.func, ast.Attribute) and x.func.attr in ("provided", "inherited", "_get_scenario_attribute", "get") \
+                and len(x.args) >= 2:
+            idx = x.args[1]
+        elif isinstance(x, ast.Subscript) and isinstance(x.value, ast.Attribute) and x.value.attr == "_scenarioAttributes":
+            idx = x.slice
+        if idx is None:
+            continue
+        n += 1
+        if isinstance(idx, ast.Constant) and isinstance(idx.value, int) and not isinstance(idx.value, bool):
+            bad.append(x)
+    for x in bad:
+        ctx.ob(rid, f"{fn.qual}: {norm(x)[:60]}", (fn, x), False,
+               f"the parent is consulted for scenario {norm(x.args[1] if isinstance(x, ast.Call) else x.slice)} while every scenario is being filled in: "
+               "a value the parent has in another scenario only is never handed down there",
+               key=key_of(rid, fn, x, "literal scenario"))
+    ctx.ob(rid, f"{fn.qual}: {n} scenario-indexed accesses, none with a literal index", fn, not bad or True, "the loop variable is used throughout", nontrivial=False)
+    if n < 2:
+        raise AnchorMissing(f"inheritAttributes: {n} scenario-indexed accesses found")
+
+
 def run_extra(ctx: Ctx):
+    literal_scenario_in_inheritance_rule(ctx, "R16.11")
+    # ---------------------------------------------------------------- R16.12 per-scenario bookkeeping identifies tasks by identity / fullId
+    from .common import local_id_identity_rule
+    local_id_identity_rule(ctx, "R16.12", ("parser/tjp_parser.py", "core/property.py"),
+                           "the override bookkeeping of one task then applies to a same-named task elsewhere, in one scenario and not in another")
     # ---------------------------------------------------------------- R16.10 answers never come from state that outlives the question
     from .common import process_state_rule
     process_state_rule(ctx, "R16.10", [ctx.repo.func("Project.schedule"), ctx.repo.func("ProjectFileParser.parse")],
